@@ -531,6 +531,9 @@ class Ex:
         if isinstance(a, VTuple) and isinstance(b, VRef) or isinstance(a, VRef) and isinstance(b, VTuple):
             return False      # tuple == list is False
         if isinstance(a, VOpaque) or isinstance(b, VOpaque):
+            h = self.cfg.lib_overrides.get(("eq", (a if isinstance(a, VOpaque) else b).kind))
+            if h is not None:
+                return h(self, a, b, fr)
             raise Unsupported("== on boundary object")
         if isinstance(a, VSeq) or isinstance(b, VSeq):
             raise Unsupported("== on symbolic sequence")
